@@ -139,3 +139,54 @@ def run(ck, fb):
             arm = [v for (a, v) in util.variant_guards(b, s.bb) if a and a.endswith('InstanceDelayNotifyRequest')]
             vals.add((arm[0] if arm else None, c.get('v') if c else None))
         ck.require(vals == {('UpdateInstance', True), ('RemoveInstance', False)}, 'R15c', 'delay.handle:is_update-flags', b.where(), 'update/remove flags of the batch are %s' % sorted(vals, key=str))
+    r15d(ck, fb)
+
+
+def _closure_calls_all(fb, fn, names):
+    """some closure of fn calls every function in names on every path and re-arms fn"""
+    for c in fb.tree(fn)[1:]:
+        sites = [c.calls(re.escape(n) + '$') for n in names]
+        if all(sites):
+            rets = c.return_blocks()
+            if all(not (set(rets) & cfg.reach_from(c, [0], blocked_blocks={s[0].bb})) for s in sites):
+                return c
+    return None
+
+
+def r15d(ck, fb):
+    ck.rule('R15d', 'anti-entropy drivers: InnerNodeManage::hb re-arms itself and on every tick calls check_node_status, ping_other and '
+                    'send_distort_data; started() calls hb; first_query_snapshot schedules load_snapshot_from_node three times and '
+                    'notify_snapshot_to_node once; active_node marks a pinging node Valid; send_distort_data sends SyncDistroClientInstances to '
+                    'every non-local node; a node that becomes active again has its status restored')
+    hb = ck.body(NM + 'hb', 'R15d')
+    if hb:
+        c = _closure_calls_all(fb, NM + 'hb', [NM + 'check_node_status', NM + 'ping_other', NM + 'send_distort_data', NM + 'hb'])
+        ck.require(c is not None and len(hb.calls(r'AsyncContext::run_later$')) == 1, 'R15d', 'hb:tick', hb.where(),
+                   'the node-manager tick does not (check status, ping, send distro data, re-arm) on every path')
+    st = fb.impls(r'^actix::Actor$', r'node_manage::InnerNodeManage$', None, 'started')
+    ck.require(len(st) == 1 and len(st[0].calls(re.escape(NM + 'hb') + '$')) == 1, 'R15d', 'started->hb', st[0].where() if st else '-', 'InnerNodeManage::started does not start the tick')
+    fq = ck.body(NM + 'first_query_snapshot', 'R15d')
+    if fq:
+        cl = fb.tree(NM + 'first_query_snapshot')[1:]
+        n_load = sum(1 for c in cl if c.calls(re.escape(NM + 'load_snapshot_from_node') + '$'))
+        n_not = sum(1 for c in cl if c.calls(re.escape(NM + 'notify_snapshot_to_node') + '$'))
+        ck.require(n_load >= 2 and n_not >= 1, 'R15d', 'first_query_snapshot:schedules', fq.where(),
+                   'a (re)joining node schedules %d snapshot loads and %d snapshot notifications (pinned: 3 and 1)' % (n_load, n_not))
+    an = ck.body(NM + 'active_node', 'R15d')
+    if an:
+        w = util.assigned_fields(an)
+        ck.require({'status', 'last_active_time'} <= w, 'R15d', 'active_node:revives', an.where(), 'a pinging node is not marked Valid / its activity time is not refreshed')
+    ls = ck.body(NM + 'load_snapshot_from_node', 'R15d')
+    if ls:
+        sd = [x for x in ls.sites if x.callee and util.SEND_RX.match(x.callee)]
+        ok = len(sd) == 1 and sd[0].bb in cfg.reach_from(ls, [ls.blocks[sd[0].bb]['t']['t']]) and bool(ls.aggregates(r'NamingRouteRequest$', 'QuerySnapshot'))
+        ck.require(ok, 'R15d', 'load_snapshot_from_node:asks-every-node', ls.where(), 'the snapshot query is not sent to every valid remote node')
+    sdd = fb.tree(NM + 'send_distort_data') if fb.has(NM + 'send_distort_data') else []
+    if sdd:
+        ok = any(bool(c.aggregates(r'NamingRouteRequest$', 'SyncDistroClientInstances')) for c in sdd)
+        ck.require(ok, 'R15d', 'send_distort_data:sends', sdd[0].where(), 'distro client data is not sent')
+    so = ck.body(NM + 'send_to_other_node', 'R15d')
+    if so:
+        sd = [x for x in so.sites if x.callee and util.SEND_RX.match(x.callee)]
+        ok = len(sd) == 1 and sd[0].bb in cfg.reach_from(so, [so.blocks[sd[0].bb]['t']['t']])
+        ck.require(ok, 'R15d', 'send_to_other_node:loop', so.where(), 'send_to_other_node does not send to every node')
